@@ -5,5 +5,5 @@ CONSTANTS
   NP = 8
   Scenarios <- ScenariosMC
   Split = TRUE
-INVARIANTS NoLostMark NoPhantom NoStray InRange
+INVARIANTS NoLostMark EveryMarkCounts NoPhantom NoStray InRange
 CHECK_DEADLOCK FALSE
